@@ -255,6 +255,15 @@ pub fn run(args: &Args) -> i32 {
         let b = adc_packet(64, 1, [0u16, 1, 2, 66, 67, 65535][d[1] as usize], f & 0xFFF, f & 0x1000 != 0, f & 0x2000 != 0, 0, f & 0xC000);
         check_adc(&b, loc, false);
     });
+    // sample contents that drive the baseline arithmetic to its extremes, with right and wrong footer baselines
+    // (the error paths build values from the computed mean) and every suppression / keep combination
+    rep.run("adc-sample-extremes", 4 * 8 * 4 * 4, 30, true, "sample count {64, 65, 100, 697} x 8 sample contents (zeros, ramp, all i16::MIN, all i16::MAX, floor remainders, alternating extremes) x footer baseline {correct, +1, -1, negated} x {suppression, keep_bit}", |idx, loc| {
+        let d = unrank(idx, &[4, 8, 4, 4]);
+        let n = [64usize, 65, 100, 697][d[0] as usize];
+        let (kb, su) = (d[3] & 1 == 1, d[3] & 2 == 2);
+        let b = adc_packet(n, d[1], (n + 2) as u16, if kb { 34 } else { 0 }, kb, su, d[2] as i64, 0);
+        check_adc(&b, loc, false);
+    });
     rep.run("chunk-length-field", 65536 * 3, 30, true, "all 65536 declared chunk lengths x total size {28, 32, 1048} with CRCs re-derived", |idx, loc| {
         let d = unrank(idx, &[65536, 3]);
         let mut b = mk_chunk(2, 0, 1, 0, payload_bytes([1usize, 6, 1024][d[1] as usize], 1));
